@@ -490,6 +490,11 @@ def check_loaded(ctx, S, wrong, loaded):
             continue
         expected_ids[sid] = e
     shift_reported = False
+    onset_bars = {A["measure_of"](e["t"]) for e in expected_ids.values()}
+    # the file gives no bar lengths: a pickup bar is only delimited by a note onset in the bar that follows it
+    origin_unknown = A["pickup"] and (1 not in onset_bars or 0 not in onset_bars)
+    if origin_unknown:
+        ctx.ambiguous()
     for sid, e in expected_ids.items():
         g = B["notes"].get(sid)
         ctx.check()
@@ -500,12 +505,16 @@ def check_loaded(ctx, S, wrong, loaded):
             continue
         ctx.check(7)
         mq = meter_context(A, e["t"])
-        if "onset" not in wrong and abs(g["onset_beat"] - e["onset_beat"]) > BEAT_TOL and not shift_reported:
+        if "onset" not in wrong and not origin_unknown and abs(g["onset_beat"] - e["onset_beat"]) > BEAT_TOL and not shift_reported:
             shift_reported = True
             V(f"score-onset-in-beats-differs:{mq}" + (":pickup" if A["pickup"] else "") + (":grace" if e["grace"] else ""),
               f"score note {sid}: onset {e['onset_beat']} beats saved, {g['onset_beat']} loaded",
               S.witness(note=e, loaded_onset_beat=g["onset_beat"], loaded_divs=B["q"]))
-        if "duration" not in wrong and "offset" not in wrong and not shift_reported \
+        if origin_unknown:
+            if "duration" not in wrong and g["dur_q"] != e["dur_q"]:
+                V(f"score-duration-differs:{'tied' if e['tied'] else ('grace' if e['grace'] else 'plain')}",
+                  f"score note {sid}: duration {e['dur_q']} quarters saved, {g['dur_q']} loaded", S.witness(note=e))
+        elif "duration" not in wrong and "offset" not in wrong and not shift_reported \
                 and abs((g["offset_beat"] - g["onset_beat"]) - (e["offset_beat"] - e["onset_beat"])) > BEAT_TOL:
             V(f"score-duration-in-beats-differs:{mq}:{'tied' if e['tied'] else ('grace' if e['grace'] else 'plain')}",
               f"score note {sid}: duration {e['offset_beat'] - e['onset_beat']} beats saved, {g['offset_beat'] - g['onset_beat']} loaded",
@@ -525,7 +534,7 @@ def check_loaded(ctx, S, wrong, loaded):
     added = [i for i in B["notes"] if i not in expected_ids and i not in {S.sid(x) for x in A["notes"]}]
     if added and "entries" not in wrong:
         V("score-note-added", f"loaded score has notes that were not saved: {added[:4]}", S.witness())
-    if not expected_ids or shift_reported:
+    if not expected_ids or shift_reported or origin_unknown:
         return
     # ---- measures, judged between the first onset's bar and the end of the last sounding note
     on_min = min(e["onset_beat"] for e in expected_ids.values())
@@ -541,7 +550,6 @@ def check_loaded(ctx, S, wrong, loaded):
         ctx.ambiguous()                           # pickup bar opening with a rest: its start is not in the file
     else:
         es, gs = [s for s, _ in exp_m], [s for s, _ in got_m]
-        onset_bars = {A["measure_of"](e["t"]) for e in expected_ids.values()}
         if es != gs:
             missing = [s for s in es if s not in gs]
             addl = [s for s in gs if s not in es]
@@ -570,10 +578,9 @@ def check_loaded(ctx, S, wrong, loaded):
         if uncovered:
             ctx.ambiguous()
             continue
-        # signatures standing before the first note's bar are placed at the start of the loaded part
-        first_bar = max([s for s, _ in A["measure_beats"] if s <= on_min] or [on_min])
-        exp_n = R.drop_redundant([(max(b, first_bar), v) for b, v in exp_s])
-        got_n = R.drop_redundant([(max(b, first_bar), v) for b, v in got_s])
+        # of the signatures standing before the first note only the one in force there is in the file
+        exp_n = R.drop_redundant([(max(b, on_min), v) for b, v in exp_s])
+        got_n = R.drop_redundant([(max(b, on_min), v) for b, v in got_s])
         if exp_n != got_n:
             bars_wo_onset = any(A["measure_of"](s) not in {A["measure_of"](e["t"]) for e in expected_ids.values()} for _, _, s in A[key])
             at_bar_start = all(any(b == ms for ms, _ in B["measure_beats"]) for b, _, _ in got_raw)
@@ -634,21 +641,29 @@ def post_save(ret, exc, token, a, k):
     if d["out"] is None or not os.path.exists(str(d["out"])):
         ctx.extra["save_match_without_path"] += 1
         return
-    import partitura
     with open(d["out"]) as f:
         text = f.read()
     wrong, T = check_text(ctx, S, text)
-    status, loaded = call_with_budget(ctx, LOAD_BUDGET_S, partitura.load_match, d["out"], create_score=True)
+    load_and_judge(ctx, S, wrong, d["out"], text, "roundtrip-unfold" if not S.unfolded else "roundtrip", "save_match wrote")
+
+
+def load_and_judge(ctx, S, wrong, path, text, cls, origin):
+    import partitura
+    with_score = sum(S.s_cov.values()) > 0         # without any score-note line there is no score to build
+    status, loaded = call_with_budget(ctx, LOAD_BUDGET_S, partitura.load_match, path, create_score=with_score)
+    if status == "ok" and not with_score:
+        loaded = (loaded[0], loaded[1], None)
     if status == "hang":
-        V("load-of-written-file-does-not-terminate", f"load_match(create_score=True) of the file save_match wrote did not return "
+        V("load-does-not-terminate", f"load_match(create_score=True) of the file {origin} did not return "
           f"within {LOAD_BUDGET_S} s", S.witness(file_head=text.splitlines()[:60]))
         ctx.case(["hang", core.digest(S.desc)], False, cls="load-hang")
         return
     if status == "raised":
-        ctx.extra["load_after_save_raised"] += 1
+        ctx.extra["load_raised"] += 1
         last = ctx.violations[-1] if ctx.violations else None
         if last is not None and last["key"].startswith("raise:") and last["witness"].get("detail") is None:
             last["witness"]["detail"] = S.witness(file_head=text.splitlines()[:60])
+        ctx.case(["load-raised", core.digest(S.desc)], False, cls="load-raised")
         return
     check_loaded(ctx, S, wrong, loaded)
     A = S.A
@@ -656,12 +671,12 @@ def post_save(ret, exc, token, a, k):
              "ts_change": len(A["ts"]) > 1, "pickup": A["pickup"], "grace": any(n["grace"] for n in A["notes"].values())}
     nontrivial = S.labels >= {"match", "deletion", "insertion", "ornament"} and \
         (feats["tie"] or feats["nonquarter"] or feats["ts_change"] or feats["pickup"])
-    sig = [core.digest(S.desc), core.digest([S.alignment, sorted(S.pnotes.items()), S.controls, S.ppq, S.mpq, S.unfolded])]
-    ctx.case(sig, nontrivial, cls="roundtrip-unfold" if not S.unfolded else "roundtrip",
+    sig = [cls[:3], core.digest(S.desc), core.digest([S.alignment, sorted(S.pnotes.items()), S.controls, S.ppq, S.mpq, S.unfolded])]
+    ctx.case(sig, nontrivial, cls=cls,
              sample={"notes": len(A["notes"]), "divs": A["q"], "meters": sorted({(b, bt) for _, b, bt in A["ts_raw"]}),
                      "labels": dict(collections.Counter(a["label"] for a in S.alignment)), "ppq": S.ppq, "mpq": S.mpq,
                      "pedal_events": len(S.controls), **feats})
-    ctx.state(("rt", tuple(sorted(S.labels)), feats["tie"], feats["nonquarter"], feats["ts_change"], feats["pickup"], feats["grace"],
+    ctx.state((cls[:3], tuple(sorted(S.labels)), feats["tie"], feats["nonquarter"], feats["ts_change"], feats["pickup"], feats["grace"],
                len(A["ks"]) > 1, S.unfolded, min(len(S.controls), 3), S.ppq))
 
 
@@ -780,15 +795,21 @@ def post_load_match(ret, exc, token, a, k):
             if kind in ("match", "deletion"):
                 sids[sid] += n
         import partitura.score as SC
-        ids = collections.Counter(str(n.id) for n in R._objects(scr[0], SC.Note))
+        all_notes = R._objects(scr[0], SC.Note)
+        ids = collections.Counter(str(n.id) for n in all_notes)
+        heads = collections.Counter(str(n.id) for n in all_notes if n.tie_prev is None)
         ctx.check(len(sids))
         for sid, n in sids.items():
             if n > 1:
                 ctx.ambiguous()
                 continue
             if ids[sid] != 1:
-                V(f"score-note-line-{'lost' if ids[sid] == 0 else 'duplicated'}",
-                  f"score note {sid} occurs {ids[sid]} times in the loaded score", dict(wit, id=sid))
+                if ids[sid] > 1 and heads[sid] == 1:
+                    V("tie-continuation-id-collides-with-score-note-id", f"the loaded score has {ids[sid]} notes with id {sid}: the "
+                      f"score note and continuation(s) of another note split at a barline", dict(wit, id=sid))
+                else:
+                    V(f"score-note-line-{'lost' if ids[sid] == 0 else 'duplicated'}",
+                      f"score note {sid} occurs {ids[sid]} times in the loaded score", dict(wit, id=sid))
                 break
     if token == "driver":
         return
@@ -820,6 +841,8 @@ def plan(tier, seed):
     items += [["gen-large", i] for i in range(16 if quick else 400)]
     items += [["unfold", i] for i in range(32 if quick else 400)]
     items += [["corrupt", i] for i in range(64 if quick else 1000)]
+    items += [["ref", i] for i in range(240 if quick else 4000)]
+    items += [["ref-corrupt", i] for i in range(48 if quick else 800)]
     items += [["fixture", f] for f in FIXTURES]
     items += [["fixture-corrupt", f, i] for f in FIXTURES[:2] for i in range(2 if quick else 12)]
     return items
@@ -862,6 +885,27 @@ def run_roundtrip(ctx, case, unfolded=True):
         shutil.rmtree(d, ignore_errors=True)
 
 
+def run_reference_file(ctx, case, rng):
+    """The reader alone: a file written by the reference writer (format description) is loaded and judged."""
+    from workloads import c08_align as W
+    pp = W.build_ppart(case.perf)
+    S = Saved(case.alignment, pp, case.part, case.perf["mpq"], case.perf["ppq"], True)
+    pn = {n["id"]: {"pitch": n["midi_pitch"], "velocity": n["velocity"], "on": n["note_on"], "off": n["note_off"],
+                    "channel": n.get("channel", 0), "track": n.get("track", 0)} for n in case.perf["notes"]}
+    right = rng.random() < 0.3
+    text = R.write_text(S.A, case.alignment, pn, case.perf["controls"], S.ppq, S.mpq, right_align_pickup=right)
+    d = tempfile.mkdtemp(prefix="c08-")
+    try:
+        fn = os.path.join(d, "ref.match")
+        with open(fn, "w") as f:
+            f.write(text)
+        load_and_judge(ctx, S, set(), fn, text, "reference-file", "the reference writer wrote")
+        ctx.classes["pickup-right-aligned" if right else "pickup-left-aligned"] += 1
+    finally:
+        shutil.rmtree(d, ignore_errors=True)
+    return text
+
+
 def run_corrupt(ctx, rng, text, tag):
     import partitura
     from workloads import c08_align as W
@@ -873,6 +917,8 @@ def run_corrupt(ctx, rng, text, tag):
             f.write(new)
         kept, dropped, info = R.kept_lines(new.splitlines())
         create = rng.random() < 0.7
+        if not any(c[0] in ("match", "deletion") for c in kept):
+            create = False                         # no score-note line survives the documented drops: there is no score to build
         try:
             ctx.call(partitura.load_match, fn, create_score=create)
         except core.PartituraRaised as pr:
@@ -890,10 +936,26 @@ def run_item(ctx, item):
     import partitura
     from workloads import c08_align as W
     kind = item[0]
-    if kind in ("gen", "gen-large", "unfold", "corrupt"):
+    if kind in ("ref", "ref-corrupt"):
+        rng = ctx.rng(kind, item[1])
+        case = W.make_case(rng, size=rng.choice(["tiny", "small", "small", "small", "large"]),
+                           klass="complete" if kind == "ref-corrupt" else None)
+        if not case.alignment:
+            ctx.extra["skipped_score_without_notes"] += 1
+            return
+        if rng.random() < 0.2 and add_midbar_key(rng, case.part):
+            ctx.extra["cases_with_midbar_key"] += 1
+        text = run_reference_file(ctx, case, rng)
+        if kind == "ref-corrupt":
+            for j in range(3):
+                run_corrupt(ctx, ctx.rng("ref-corrupt", item[1], j), text, "reference")
+    elif kind in ("gen", "gen-large", "unfold", "corrupt"):
         rng = ctx.rng(kind, item[1])
         size = "large" if kind == "gen-large" else rng.choice(["tiny", "small", "small", "small"])
         case = W.make_case(rng, size=size, klass="complete" if kind in ("unfold", "corrupt") else None)
+        if not case.alignment:
+            ctx.extra["skipped_score_without_notes"] += 1
+            return
         if rng.random() < 0.2 and add_midbar_key(rng, case.part):
             ctx.extra["cases_with_midbar_key"] += 1
         text = run_roundtrip(ctx, case, unfolded=(kind != "unfold"))
